@@ -5,6 +5,7 @@ CONSTANTS
   NNat = 23
   SrvN <- MCSrvN
   Keys = {0, 1, 2, 7, 11, 22}
+  MaxReconnects = 1
   MaxHeaders = 2
 INVARIANT Inv
 CHECK_DEADLOCK FALSE
